@@ -438,6 +438,269 @@ theorem closure_params_taken_whole (o c : Tok) (params r : List Tok)
       rw [ih (fun t ht => h t (by simp [ht]))]
   rw [this params hp]
 
+/-! #### Whole expressions and whole lists with generic arguments and closures -/
+
+theorem exprStep_closure (o c : Tok) (params r : List Tok)
+    (ho : o.isPunct '|' = true) (hc : c.isPunct '|' = true)
+    (hp : ∀ t ∈ params, t.isPunct '|' = false) :
+    exprStep (o :: (params ++ c :: r)) = some (o :: (params ++ [c]), r) := by
+  have hlt : o.isPunct '<' = false := by cases o <;> simp_all [Tok.isPunct]
+  have hps : ∀ y, pathSep (o :: y) = none := by
+    intro y
+    cases o with
+    | punct ch j =>
+      have : ch = '|' := by simpa [Tok.isPunct] using ho
+      subst this
+      cases y with
+      | nil => simp [pathSep]
+      | cons u y' => unfold pathSep; split <;> simp_all
+    | _ => simp [Tok.isPunct] at ho
+  unfold exprStep
+  have hcons : params ++ c :: r ≠ [] := by simp
+  cases hi : params ++ c :: r with
+  | nil => exact absurd hi hcons
+  | cons x y =>
+    simp only [hps]
+    rw [← hi]
+    simp only [balancedPair, hlt, Bool.false_eq_true, if_false]
+    have := closure_params_taken_whole o c params r ho hc hp
+    simp only [balancedPair, ho, if_true] at this
+    simp only [ho, if_true]
+    cases hb : balancedLoop '|' '|' (params ++ c :: r) 1 with
+    | none => simp [hb] at this
+    | some pr => simp only [hb] at this ⊢; exact this
+
+/-- An expression as a sequence of chunks the scanner takes one at a time: a plain token (any
+delimited group included), a turbofish `::<..>`, a qualified-path head `<..>::`, a closure
+parameter list `|..|`. The angle brackets are balanced inside, to any nesting depth. -/
+inductive Chunked : List Tok → Prop where
+  | nil : Chunked []
+  | plain (t : Tok) (r : List Tok) : Plain t → Chunked r → Chunked (t :: r)
+  | turbofish (j : Bool) (o c : Tok) (inner r : List Tok) :
+      o.isPunct '<' = true → c.isPunct '>' = true → Bal inner → Chunked r →
+      Chunked (.punct ':' true :: .punct ':' j :: o :: (inner ++ c :: r))
+  | qpath (j : Bool) (o c : Tok) (inner r : List Tok) :
+      o.isPunct '<' = true → c.isPunct '>' = true → Bal inner → Chunked r →
+      Chunked (o :: (inner ++ c :: .punct ':' true :: .punct ':' j :: r))
+  | closure (o c : Tok) (params r : List Tok) :
+      o.isPunct '|' = true → c.isPunct '|' = true → (∀ t ∈ params, t.isPunct '|' = false) →
+      Chunked r → Chunked (o :: (params ++ c :: r))
+
+theorem not_comma_of_isPunct (t : Tok) (ch : Char) (hne : ch ≠ ',') (h : t.isPunct ch = true) :
+    t.isComma = false := by
+  cases t <;> simp_all [Tok.isComma, Tok.isPunct]
+
+/-- **Commas inside generic argument lists and closure parameter lists never split** (nor those
+inside groups): a chunked expression is consumed as a whole, up to the next top-level comma. -/
+theorem chunked_taken_whole : ∀ (e : List Tok), Chunked e → ∀ (rest acc : List Tok) (fuel : Nat) (parsed : Bool),
+    StartsWithComma rest → e.length < fuel → (e ≠ [] ∨ parsed = true) →
+    takeUntilComma fuel (e ++ rest) parsed acc = some (acc ++ e, rest) := by
+  intro e he
+  induction he with
+  | nil =>
+    intro rest acc fuel parsed hr hf hp
+    have hpt : parsed = true := by rcases hp with h | h; exact absurd rfl h; exact h
+    subst hpt
+    cases fuel with
+    | zero => omega
+    | succ f =>
+      cases rest with
+      | nil => simp [takeUntilComma]
+      | cons t r => simp [takeUntilComma, StartsWithComma] at hr ⊢; simp [hr]
+  | plain t r ht _ ih =>
+    intro rest acc fuel parsed hr hf _
+    cases fuel with
+    | zero => simp at hf
+    | succ f =>
+      simp only [List.cons_append, takeUntilComma, ht.2.2.2, exprStep_plain t (r ++ rest) ht]
+      have := ih rest (acc ++ [t]) f true hr (by simp at hf; omega) (Or.inr rfl)
+      simpa using this
+  | turbofish j o c inner r ho hc hb _ ih =>
+    intro rest acc fuel parsed hr hf _
+    cases fuel with
+    | zero => simp at hf
+    | succ f =>
+      have hstep := turbofish_taken_whole j o c inner (r ++ rest) ho hc hb
+      have hnc : (Tok.punct ':' true).isComma = false := by simp [Tok.isComma, Tok.isPunct]
+      have heq : (Tok.punct ':' true :: Tok.punct ':' j :: o :: (inner ++ c :: r)) ++ rest
+          = Tok.punct ':' true :: Tok.punct ':' j :: o :: (inner ++ c :: (r ++ rest)) := by simp
+      rw [heq]
+      simp only [takeUntilComma, hnc, hstep]
+      have := ih rest (acc ++ (Tok.punct ':' true :: Tok.punct ':' j :: o :: (inner ++ [c]))) f true hr
+        (by simp at hf ⊢; omega) (Or.inr rfl)
+      simpa using this
+  | qpath j o c inner r ho hc hb _ ih =>
+    intro rest acc fuel parsed hr hf _
+    cases fuel with
+    | zero => simp at hf
+    | succ f =>
+      have hstep := qualified_path_taken_whole j o c inner (r ++ rest) ho hc hb
+      have hnc : o.isComma = false := not_comma_of_isPunct o '<' (by decide) ho
+      have heq : (o :: (inner ++ c :: Tok.punct ':' true :: Tok.punct ':' j :: r)) ++ rest
+          = o :: (inner ++ c :: Tok.punct ':' true :: Tok.punct ':' j :: (r ++ rest)) := by simp
+      rw [heq]
+      simp only [takeUntilComma, hnc, hstep]
+      have := ih rest (acc ++ (o :: (inner ++ [c, Tok.punct ':' true, Tok.punct ':' j]))) f true hr
+        (by simp at hf ⊢; omega) (Or.inr rfl)
+      simpa using this
+  | closure o c params r ho hc hp _ ih =>
+    intro rest acc fuel parsed hr hf _
+    cases fuel with
+    | zero => simp at hf
+    | succ f =>
+      have hstep := exprStep_closure o c params (r ++ rest) ho hc hp
+      have hnc : o.isComma = false := not_comma_of_isPunct o '|' (by decide) ho
+      have heq : (o :: (params ++ c :: r)) ++ rest = o :: (params ++ c :: (r ++ rest)) := by simp
+      rw [heq]
+      simp only [takeUntilComma, hnc, hstep]
+      have := ih rest (acc ++ (o :: (params ++ [c]))) f true hr (by simp at hf ⊢; omega) (Or.inr rfl)
+      simpa using this
+
+theorem chunked_head_not_comma (t : Tok) (r : List Tok) (h : Chunked (t :: r)) : t.isComma = false := by
+  cases h with
+  | plain _ _ ht _ => exact ht.2.2.2
+  | turbofish j o c inner r' ho hc hb hr => simp [Tok.isComma, Tok.isPunct]
+  | qpath j o c inner r' ho hc hb hr => exact not_comma_of_isPunct _ '<' (by decide) ho
+  | closure o c params r' ho hc hp hr => exact not_comma_of_isPunct _ '|' (by decide) ho
+
+theorem chunked_tail (t : Tok) (r : List Tok) (ht : Plain t) (h : Chunked (t :: r)) : Chunked r := by
+  cases h with
+  | plain _ _ _ hr => exact hr
+  | turbofish j o c inner r' ho hc hb hr => simp [Plain, Tok.isPunct] at ht
+  | qpath j o c inner r' ho hc hb hr => exact absurd ho (by simp [ht.1])
+  | closure o c params r' ho hc hp hr => exact absurd ho (by simp [ht.2.1])
+
+theorem startsWithAlias_none' (e rest : List Tok) (hne : e ≠ []) (hna : NotAliasStart e)
+    (hr : StartsWithComma rest) : startsWithAlias (e ++ rest) = none := by
+  cases e with
+  | nil => exact absurd rfl hne
+  | cons t e' =>
+    cases t with
+    | ident a =>
+      cases e' with
+      | nil =>
+        cases rest with
+        | nil => simp [startsWithAlias]
+        | cons c r =>
+          have hc : c.isComma = true := hr
+          cases c <;> simp_all [startsWithAlias, Tok.isComma, Tok.isPunct]
+      | cons u e'' =>
+        cases u with
+        | punct ch j =>
+          by_cases hch : ch = '='
+          · subst hch; exact absurd rfl (hna a j e'')
+          · simp [startsWithAlias, hch]
+        | _ => simp [startsWithAlias]
+    | _ => simp [startsWithAlias]
+
+theorem parseExpr_chunked (e rest : List Tok) (hne : e ≠ []) (hch : Chunked e)
+    (hr : StartsWithComma rest) : parseExpr (e ++ rest) = some (mkExpr e, rest) := by
+  have whole : takeUntilComma ((e ++ rest).length + 1) (e ++ rest) false [] = some (e, rest) := by
+    have := chunked_taken_whole e hch rest [] ((e ++ rest).length + 1) false hr (by simp; omega) (Or.inl hne)
+    simpa using this
+  cases e with
+  | nil => exact absurd rfl hne
+  | cons t e' =>
+    cases t with
+    | ident s =>
+      cases e' with
+      | nil =>
+        cases rest with
+        | nil => simp [parseExpr, mkExpr]
+        | cons c r =>
+          obtain ⟨j, rfl⟩ := comma_is_punct c hr
+          simp [parseExpr, mkExpr]
+      | cons u e'' =>
+        have hpl : Plain (Tok.ident s) := by simp [Plain, Tok.isPunct, Tok.isComma]
+        have hu : u.isComma = false := chunked_head_not_comma u e'' (chunked_tail _ _ hpl hch)
+        have hnc : ∀ j, u ≠ .punct ',' j := by
+          intro j h; subst h; simp [Tok.isComma, Tok.isPunct] at hu
+        have hm : mkExpr (.ident s :: u :: e'') = .other (.ident s :: u :: e'') := by simp [mkExpr]
+        rw [hm]
+        unfold parseExpr
+        split
+        · rename_i heq; simp at heq
+        · rename_i heq
+          simp only [List.cons_append, List.cons.injEq] at heq
+          exact absurd heq.2.1 (hnc _)
+        · rw [whole]
+    | punct ch j =>
+      have hm : mkExpr (.punct ch j :: e') = .other (.punct ch j :: e') := by simp [mkExpr]
+      rw [hm]; unfold parseExpr
+      split
+      · rename_i heq; simp at heq
+      · rename_i heq; simp at heq
+      · rw [whole]
+    | lit l =>
+      have hm : mkExpr (.lit l :: e') = .other (.lit l :: e') := by simp [mkExpr]
+      rw [hm]; unfold parseExpr
+      split
+      · rename_i heq; simp at heq
+      · rename_i heq; simp at heq
+      · rw [whole]
+    | group d g =>
+      have hm : mkExpr (.group d g :: e') = .other (.group d g :: e') := by simp [mkExpr]
+      rw [hm]; unfold parseExpr
+      split
+      · rename_i heq; simp at heq
+      · rename_i heq; simp at heq
+      · rw [whole]
+
+/-- **The whole list, with generic arguments and closures**: any number of chunked arguments
+(plain tokens, groups, turbofish, qualified paths, closure parameter lists — balanced to any depth)
+joined by commas is read back as exactly those arguments. Together with the known findings below
+(a binary `|`, a cast to a generic type, `->` inside generic arguments, `a < b, c > ::d`) this is
+where the scanner agrees with Rust's grammar and where it does not. -/
+theorem chunked_list_split_at_commas (c : Tok) (hc : c.isComma = true) :
+    ∀ (es : List (List Tok)) (fuel : Nat),
+      (∀ e ∈ es, e ≠ []) → (∀ e ∈ es, Chunked e) → (∀ e ∈ es, NotAliasStart e) →
+      es.length < fuel →
+      parseArgsLoop fuel (joinC c es) = some (es.map fun e => { alias := none, expr := mkExpr e })
+  | [], fuel, _, _, _, hf => by
+    cases fuel with
+    | zero => omega
+    | succ f => simp [joinC, parseArgsLoop]
+  | [e], fuel, hne, hp, hna, hf => by
+    cases fuel with
+    | zero => omega
+    | succ f =>
+      have he : e ≠ [] := hne e (by simp)
+      have hpe := hp e (by simp)
+      have h1 : parseArg (e ++ []) = some ({ alias := none, expr := mkExpr e }, []) := by
+        unfold parseArg
+        rw [startsWithAlias_none' e [] he (hna e (by simp)) trivial, parseExpr_chunked e [] he hpe trivial]
+      simp only [List.append_nil] at h1
+      cases e with
+      | nil => exact absurd rfl he
+      | cons t e' => simp [joinC, parseArgsLoop, h1]
+  | e :: e2 :: es, fuel, hne, hp, hna, hf => by
+    cases fuel with
+    | zero => omega
+    | succ f =>
+      have he : e ≠ [] := hne e (by simp)
+      have hpe := hp e (by simp)
+      have hr : StartsWithComma (c :: joinC c (e2 :: es)) := hc
+      have h1 : parseArg (e ++ c :: joinC c (e2 :: es))
+          = some ({ alias := none, expr := mkExpr e }, c :: joinC c (e2 :: es)) := by
+        unfold parseArg
+        rw [startsWithAlias_none' e _ he (hna e (by simp)) hr, parseExpr_chunked e _ he hpe hr]
+      have ih := chunked_list_split_at_commas c hc (e2 :: es) f
+        (fun x hx => hne x (by simp [hx])) (fun x hx => hp x (by simp [hx]))
+        (fun x hx => hna x (by simp [hx])) (by simp at hf ⊢; omega)
+      cases e with
+      | nil => exact absurd rfl he
+      | cons t e' =>
+        simp only [joinC, List.cons_append] at h1 ⊢
+        simp only [parseArgsLoop, h1, hc, if_true, ih, List.map_cons]
+
+/-- Non-vacuity: `f::<A, B>(x)`, `<A as T<B, C>>::X` and `|p, q| p` are chunked. -/
+example : Chunked [.ident "f", .punct ':' true, .punct ':' false, .punct '<' false, .ident "A", .punct ',' false,
+    .ident "B", .punct '>' false, .group .paren [.ident "x"]] :=
+  .plain _ _ (by simp [Plain, Tok.isPunct, Tok.isComma])
+    (.turbofish false (.punct '<' false) (.punct '>' false) [.ident "A", .punct ',' false, .ident "B"] _ rfl rfl
+      (.other _ _ rfl rfl (.other _ _ rfl rfl (.other _ _ rfl rfl .nil)))
+      (.plain _ _ (by simp [Plain, Tok.isPunct, Tok.isComma]) .nil))
+
 /-! ### Known deviations from Rust's grammar (kernel-checked witnesses of the findings) -/
 
 /-- `a | b, c | d`: a binary `|` is taken for the start of a closure parameter list and the
